@@ -130,7 +130,10 @@ pub fn same_image(a: &tiny_skia::Pixmap, b: &tiny_skia::Pixmap, tol: u8) -> (boo
 }
 
 /// feature probes (content placed over a sand-coloured backdrop)
-const PROBES: [&str; 48] = [
+const PROBES: [&str; 50] = [
+    // a clip path child that is a `use` (with and without its own clip path) of a shape with a clip path
+    r###"<clipPath id="nk1"><rect x="10" y="10" width="70" height="70"/></clipPath><clipPath id="nk2"><circle cx="60" cy="50" r="45"/></clipPath><rect id="nt" x="20" y="20" width="80" height="60" clip-path="url(#nk1)"/><clipPath id="nc"><use xlink:href="#nt" clip-path="url(#nk2)"/></clipPath><rect width="120" height="100" fill="purple" clip-path="url(#nc)"/>"###,
+    r###"<clipPath id="mk1"><rect x="10" y="10" width="70" height="70"/></clipPath><rect id="mt" x="20" y="20" width="80" height="60" clip-path="url(#mk1)"/><clipPath id="mc"><use xlink:href="#mt"/><circle cx="100" cy="80" r="10"/></clipPath><rect width="120" height="100" fill="navy" clip-path="url(#mc)"/>"###,
     r###"<pattern id="pv1" viewBox="0 0 4 4" width="0.25" height="0.25" patternContentUnits="objectBoundingBox"><rect width="2" height="2" fill="#d00"/><rect x="2" y="2" width="2" height="2" fill="#00d"/></pattern><rect x="15" y="15" width="80" height="60" fill="url(#pv1)"/>"###,
     r###"<pattern id="pv2" viewBox="0 0 4 4" width="20" height="16" patternUnits="userSpaceOnUse" patternContentUnits="objectBoundingBox" preserveAspectRatio="none"><rect width="2" height="2" fill="#d00"/><rect x="2" y="2" width="2" height="2" fill="#00d"/></pattern><rect x="15" y="15" width="80" height="60" fill="none" stroke="url(#pv2)" stroke-width="14"/>"###,
     r###"<clipPath id="shc"><rect width="120" height="100"/></clipPath><clipPath id="inc"><circle cx="70" cy="60" r="18"/></clipPath><g clip-path="url(#shc)"><rect x="5" y="5" width="20" height="20" fill="#080"/></g><g clip-path="url(#shc)"><rect x="40" y="30" width="70" height="60" fill="#c0c" clip-path="url(#inc)"/></g>"###,
@@ -238,12 +241,23 @@ pub fn search(tier: &str, seed: u64, s: &mut Search) {
         let mut cv = vec![];
         crate::tree::check_written(&text, "", &mut cv);
         let broken: Option<String> = cv.iter().find(|x| x.sig.contains("-reference:")).map(|x| x.sig.trim_start_matches("C07:").to_string());
+        // the writer puts only the paths of a clip-path child group into a clipPath element: a group inside such a
+        // group (a `use` of a shape that has a clip path of its own) is not written
+        fn group_in_group(g: &usvg::Group, depth: u32) -> bool {
+            g.children().iter().any(|n| match n {
+                usvg::Node::Group(c) => depth >= 1 || group_in_group(c, depth + 1),
+                _ => false,
+            })
+        }
+        let nested_clip_groups = t.clip_paths().iter().any(|cp| group_in_group(cp.root(), 0));
         let label: String = if let Some(b) = &broken {
             format!("written-reference-broken({})", b)
         } else if kw.iter().any(|k| text.contains(&format!("result=\"{}\"", k)) || text.contains(&format!("result='{}'", k))) {
             "filter(result-named-like-an-input-keyword)".to_string()
         } else if saturate_above_1 {
             "filter(saturate-above-1)".to_string()
+        } else if nested_clip_groups {
+            "clip-path(group-inside-a-clip-child-group-not-written)".to_string()
         } else {
             format!("{}:{}", vclass, feature)
         };
